@@ -165,6 +165,81 @@ def shard_lead_only(args):
     return acc.export()
 
 
+ALIASES = {
+    "ascii": ("ANSI_X3.4-1968", "US-ASCII", "646", "us_ascii", "ASCII"),
+    "latin-1": ("iso-8859-1", "latin1", "ISO8859-1", "L1", "iso8859_1"),
+    "utf-8": ("UTF-8", "utf8", "U8", "utf_8", "UTF8"),
+}
+
+
+def node_results(ref, enc, seq):
+    lst = [seq[i : i + 1] for i in range(len(seq))]
+    out = []
+    for mode in ref.modes:
+        for full in (False, True):
+            try:
+                out.append(("key", ref.events.get_key(lst, enc, keynames=mode, full=full)))
+            except Exception as ex:  # noqa
+                out.append(("exc", type(ex).__name__))
+    return out
+
+
+def shard_alias(args):
+    """The same encoding under another name must decode identically: the canonical name's tree is walked and every state is also
+    evaluated under the alias (locale.getpreferredencoding() reports e.g. 'ANSI_X3.4-1968' for ascii in the C locale)."""
+    tier, seed, canonical, alias, first = args
+    ref = D.Ref()
+    acc = Acc(seed=seed)
+    stack = [bytes([first])]
+    while stack:
+        seq = stack.pop()
+        a = node_results(ref, canonical, seq)
+        b = node_results(ref, alias, seq)
+        acc.case(True, key=(alias, seq), sample=lambda: {"encoding": alias, "canonical": canonical, "seq": seq.hex()})
+        acc.transitions += 12
+        if a != b:
+            acc.failure("C03:encoding_alias_decodes_differently", {"encoding": alias, "canonical": canonical, "seq": seq.hex()}, "%r vs %r" % (b, a))
+            continue
+        if a[0] == ("key", None) and len(seq) <= ref.MAX and (canonical != "utf-8" or seq[0] < 0xE0):
+            stack.extend(seq + bytes([x]) for x in range(256))
+    return acc.export()
+
+
+def shard_history(args):
+    """Decoding is a function of (bytes, encoding, naming mode, full): the same call must give the same answer whatever was decoded
+    before in the same process (module-level caches).  Single bytes and table sequences are decoded under every ordering of the
+    encodings and naming modes."""
+    tier, seed, part = args
+    import itertools as it
+
+    ref = D.Ref()
+    acc = Acc(seed=seed)
+    seqs = [bytes([b]) for b in range(256)] + sorted(k for k in ref.T if len(k) > 1) + ["ß".encode(), "∂".encode(), "😀".encode()]
+    seqs = seqs[part::4]
+    first_seen = {}
+    orders = list(it.permutations(D.ENCODINGS))
+    mode_orders = list(it.permutations(range(3)))
+    for oi, encs in enumerate(orders):
+        modes = mode_orders[oi % len(mode_orders)]
+        for seq in seqs:
+            lst = [seq[i : i + 1] for i in range(len(seq))]
+            for enc in encs:
+                for mi in modes:
+                    for full in (True, False):
+                        try:
+                            r = ("key", ref.events.get_key(lst, enc, keynames=ref.modes[mi], full=full))
+                        except Exception as ex:  # noqa
+                            r = ("exc", type(ex).__name__)
+                        key = (seq, enc, mi, full)
+                        acc.case(True, key=(oi,) + key)
+                        acc.transitions += 1
+                        if key not in first_seen:
+                            first_seen[key] = r
+                        elif first_seen[key] != r:
+                            acc.failure("C03:decoding_depends_on_history", {"seq": seq.hex(), "encoding": enc, "mode": mi, "full": full}, "first %r, later %r" % (first_seen[key], r))
+    return acc.export()
+
+
 def shard_streams_table(args):
     tier, seed, enc, idx = args
     ref = D.Ref()
@@ -221,6 +296,11 @@ def run(ctx, keep=PREFIX):
         rep.merge(d, "decision_tree")
     rep.merge(shard_lead_only((ctx.tier, ctx.seed)), "decision_tree")
     nodes = rep.extra.get("nodes", 0)
+    alias_shards = [(ctx.tier, ctx.seed, canon, al, b) for canon, als in ALIASES.items() for al in (als if ctx.thorough else als[:3]) for b in range(256)]
+    for d in ctx.pmap(shard_alias, alias_shards, chunksize=16):
+        rep.merge(d, "encoding_aliases")
+    for d in ctx.pmap(shard_history, [(ctx.tier, ctx.seed, i) for i in range(4)]):
+        rep.merge(d, "history_independence")
     for d in ctx.pmap(shard_streams_table, [(ctx.tier, ctx.seed, enc, i) for enc in D.ENCODINGS for i in range(16)]):
         rep.merge(d, "streams_table")
     step = 1 if ctx.thorough else 64
